@@ -287,4 +287,26 @@ func init() {
 		},
 		Outside: []string{"(*shp.Decoder).SR (reads a .prj file)", "definitions naming a datum or ellipsoid by name"},
 	})
+	reg(&Property{
+		ID: "C19", Pkgs: []string{"route"}, Level: "model_checking",
+		Opts: []HarnessOpt{{Prefix: "VH_C19_", Mode: "G", IfConv: true, MaxUnwind: 60, MaxSteps: 50_000_000, Merge: rtMerge}},
+		Rule: "one evaluation = one explored path (topology, minimisation option, speeds, every comparison made by the R-tree, the heap and the search) with every link length a free grid value; non-trivial = path ends with all assertions discharged",
+		Bounds: map[string]string{
+			"topologies": "chain of 3 nodes, triangle with a direct link, two components; concrete node positions",
+			"links":      "axis-aligned staircases of symbolic riser height (signed 3-bit grid, >= 0): length span + 2h exact; speeds in {1,2} (thorough {1,2,4,8})",
+		},
+		Assumptions: []string{"G mode: Hypot(x, 0) = |x| exactly; link lengths and times are exact", "gonum path.AStar, container/heap, sort and the route package's R-trees are executed from their real SSA"},
+		Outside:     []string{"arbitrary link geometries and topologies", "query points away from the nodes"},
+	})
+	reg(&Property{
+		ID: "C09", Pkgs: []string{"proj"}, Level: "translation_validation",
+		Opts: []HarnessOpt{{Prefix: "VH_C09_", Mode: "U", IfConv: false, MaxUnwind: 80, MaxSteps: 200_000_000}},
+		Rule: "one evaluation = one explored path of a pair (Go kernel, proj4js original): the JavaScript source is parsed and evaluated symbolically by an ES5-subset interpreter written in Go (itself executed by the symbolic executor), on the same symbolic arguments as the Go function; non-trivial = path ends with the equality discharged",
+		Bounds: map[string]string{
+			"pairs": "common.go kernels against proj4js-2.3.12/lib/common/*.js: e0fn e1fn e2fn e3fn sign adjust_lon adjust_lat asinz msfnz tsfnz qsfnz mlfn phi2z imlfn; the ellipsoid, datum, prime-meridian and unit tables against lib/constants/*.js",
+			"loops": "iteration loops unrolled to the code's own caps (phi2z 16, imlfn 15)",
+		},
+		Assumptions: []string{"mode U: +,-,*,/ and Math.*/math.* are the same uninterpreted functions on both sides (JS numbers and Go float64 are both IEEE doubles)"},
+		Outside:     []string{"the projection files (init/forward/inverse of merc, lcc, aea, eqdc, tmerc, utm, krovak, longlat), datum.js, datum_transform.js, transform.js: their JS uses object state and is not yet paired with the Go closures", "the 0.1 mm / 5 mm numeric agreement (libm-dependent; no SMT theory decides it)"},
+	})
 }
